@@ -89,7 +89,23 @@ def r1(R, repo):
     f = ns.func(q)
     c = cfg_of(f)
     st = [n for n in c.nodes if isinstance(n.stmt, ast.Assign) and astu.src(n.stmt.targets[0]) == 'x.sharding']
-    R.require(len(st) == 1, '%s: x.sharding assignment not found' % q)
+    if not st:
+      # `sharding` folded into a generic loop over (field, name) pairs: the loop's guard decides whether () is handled
+      gen = [n_ for n_ in astu.body_walk(f.node) if isinstance(n_, ast.For) and any(astu.const_str(y) == 'sharding' for y in ast.walk(n_.iter))]
+      key = key_of(f, 'applies to every annotated Variable (sharding is not None), including sharding=()')
+      handled = False
+      for lp_ in gen:
+        kv = astu.src(lp_.target.elts[0]) if isinstance(lp_.target, ast.Tuple) else None
+        for g_ in [y for y in lp_.body if isinstance(y, ast.If)]:
+          ops = list(evid.truthiness_operands(g_.test))
+          truthy_attr = [o for o in ops if (isinstance(o, ast.NamedExpr) and isinstance(o.value, ast.Call) and astu.call_name(o.value) == 'getattr') or (isinstance(o, ast.Call) and astu.call_name(o) == 'getattr')]
+          if truthy_attr:
+            handled = True
+            R.fail(key, (f, g_), 'the `sharding` field is updated by a generic loop whose guard `%s` tests the field value for truth: a rank-0 Variable annotated with sharding=() is skipped, so it does not get the '
+                   'partition name when it is stacked (nor lose it when sliced)' % astu.short(g_.test, 100))
+      if not handled:
+        R.require(False, '%s: x.sharding assignment not found' % q)
+      continue
     val = st[0].stmt.value
     ok = isinstance(val, ast.Call) and astu.call_name(val) == field_fn and [astu.src(a) for a in val.args] == ['x.sharding', 'index', 'axis_name']
     R.judge(isinstance(val, ast.Call) and astu.call_name(val) in ('insert_field', 'remove_field') and len(val.args) == 3, ok, key_of(f, 'x.sharding = %s(x.sharding, index, axis_name)' % field_fn), f, '%s must rewrite x.sharding with %s(x.sharding, index, axis_name)' % (q, field_fn))
@@ -215,9 +231,17 @@ def r4(R, repo):
 
   def flat(d, p):
     return isinstance(d, ast.Call) and astu.call_name(d) == 'set' and isinstance(d.args[0], ast.Call) and astu.call_name(d.args[0]) == 'jax.tree_util.tree_leaves' and astu.src(d.args[0].args[0]) == p
+  raw_use = [x for x in ast.walk(mf.node) if isinstance(x, (ast.Call, ast.BinOp, ast.Compare)) and
+             ((isinstance(x, ast.Call) and astu.call_tail(x) in ('isdisjoint', 'intersection', 'issubset', 'issuperset', 'union') and any(evid.raw3(mf, a_, ps[1], ('tree_leaves', 'tree_flatten')) == evid.RAW for a_ in x.args)) or
+              (isinstance(x, ast.BinOp) and isinstance(x.op, (ast.BitAnd, ast.BitOr)) and any(evid.raw3(mf, a_, ps[1], ('tree_leaves', 'tree_flatten')) == evid.RAW for a_ in (x.left, x.right))))]
+  if raw_use:
+    R.fail(key_of(mf, 'both sides flattened to single mesh axis names'), (mf, raw_use[0]), '`%s` compares the new mesh axes with the *unflattened* existing assignments: a rule may have assigned a tuple of mesh axes to one dimension, '
+           'and a tuple never equals a single axis name, so an axis used inside such a tuple is not seen as taken and is assigned to a second dimension' % astu.short(raw_use[0]))
+    dn = de = None
   unflat = lambda d, p_: isinstance(d, ast.Call) and astu.call_name(d) in ('set', 'frozenset') and len(d.args) == 1 and astu.src(d.args[0]) == p_
-  R.judge((flat(dn, ps[0]) or unflat(dn, ps[0])) and (flat(de, ps[1]) or unflat(de, ps[1])), flat(dn, ps[0]) and flat(de, ps[1]), key_of(mf, 'both sides flattened to single mesh axis names'), mf,
-          'a rule may name a tuple of mesh axes, so both the new assignment and the existing assignments must be flattened with jax.tree_util.tree_leaves before intersecting (got `%s` / `%s`): otherwise an axis used inside a tuple is not seen as taken' % (astu.short(dn), astu.short(de)))
+  if not raw_use:
+   R.judge((flat(dn, ps[0]) or unflat(dn, ps[0])) and (flat(de, ps[1]) or unflat(de, ps[1])), flat(dn, ps[0]) and flat(de, ps[1]), key_of(mf, 'both sides flattened to single mesh axis names'), mf,
+           'a rule may name a tuple of mesh axes, so both the new assignment and the existing assignments must be flattened with jax.tree_util.tree_leaves before intersecting (got `%s` / `%s`): otherwise an axis used inside a tuple is not seen as taken' % (astu.short(dn), astu.short(de)))
   cm = cfg_of(mf)
   t = [n for n in cm.nodes if n.kind == 'if' and astu.src(n.ast) in ('existing.intersection(new)', 'new.intersection(existing)', 'existing & new', 'new & existing')]
   rf = [n for n in cm.nodes if isinstance(n.stmt, ast.Return) and astu.is_const(n.stmt.value, False)]
